@@ -109,8 +109,11 @@ def judge_registry(part, b, ty, ent, decl=None):
     has_ref, ents = decl if decl is not None else declared.declared_units(ty)
     obs = [u["dbg"] for u in ent["units"]]
     want_set = sorted(e["variant"] for e in ents)
-    if sorted(obs) != want_set:
+    if len(set(obs)) != len(obs) or set(want_set) - set(obs):
         viol(part, b, ty, "completeness", "iteration yields %s, declared units are %s" % (obs, want_set))
+        return
+    if set(obs) - set(want_set):
+        part.inconclusive.append("%s %s: iterated units %s are not in the declared tables - extend the table to judge them" % (b, ty, sorted(set(obs) - set(want_set))))
         return
     part.cell(b, ty, "completeness")
     if ent["unit_iter"] != obs:
